@@ -108,11 +108,11 @@ func (p *CPU) execInst(bus *device.Bus, as abi.As, arg *abi.AsRawArgument) error
 			p.PC = curPC + RVUInt(arg.Imm)
 		}
 	case riscv.ABLT:
-		if int64(p.RegX[arg.Rs1]) < int64(p.RegX[arg.Rs2]) {
+		if RVInt(p.RegX[arg.Rs1]) < RVInt(p.RegX[arg.Rs2]) {
 			p.PC = curPC + RVUInt(arg.Imm)
 		}
 	case riscv.ABGE:
-		if int64(p.RegX[arg.Rs1]) >= int64(p.RegX[arg.Rs2]) {
+		if RVInt(p.RegX[arg.Rs1]) >= RVInt(p.RegX[arg.Rs2]) {
 			p.PC = curPC + RVUInt(arg.Imm)
 		}
 	case riscv.ABLTU:
@@ -179,7 +179,7 @@ func (p *CPU) execInst(bus *device.Bus, as abi.As, arg *abi.AsRawArgument) error
 	case riscv.AADDI:
 		p.RegX[arg.Rd] = p.RegX[arg.Rs1] + RVUInt(arg.Imm)
 	case riscv.ASLTI:
-		if int64(p.RegX[arg.Rs1]) < int64(arg.Imm) {
+		if RVInt(p.RegX[arg.Rs1]) < RVInt(arg.Imm) {
 			p.RegX[arg.Rd] = 1
 		} else {
 			p.RegX[arg.Rd] = 0
@@ -201,7 +201,7 @@ func (p *CPU) execInst(bus *device.Bus, as abi.As, arg *abi.AsRawArgument) error
 	case riscv.ASRLI:
 		p.RegX[arg.Rd] = p.RegX[arg.Rs1] >> arg.Imm
 	case riscv.ASRAI:
-		p.RegX[arg.Rd] = RVUInt(int64(p.RegX[arg.Rs1]) >> arg.Imm)
+		p.RegX[arg.Rd] = RVUInt(RVInt(p.RegX[arg.Rs1]) >> arg.Imm)
 	case riscv.AADD:
 		p.RegX[arg.Rd] = p.RegX[arg.Rs1] + p.RegX[arg.Rs2]
 	case riscv.ASUB:
@@ -209,7 +209,7 @@ func (p *CPU) execInst(bus *device.Bus, as abi.As, arg *abi.AsRawArgument) error
 	case riscv.ASLL:
 		p.RegX[arg.Rd] = p.RegX[arg.Rs1] << (p.RegX[arg.Rs2] & (XLen - 1))
 	case riscv.ASLT:
-		if int64(p.RegX[arg.Rs1]) < int64(p.RegX[arg.Rs2]) {
+		if RVInt(p.RegX[arg.Rs1]) < RVInt(p.RegX[arg.Rs2]) {
 			p.RegX[arg.Rd] = 1
 		} else {
 			p.RegX[arg.Rd] = 0
@@ -225,7 +225,7 @@ func (p *CPU) execInst(bus *device.Bus, as abi.As, arg *abi.AsRawArgument) error
 	case riscv.ASRL:
 		p.RegX[arg.Rd] = p.RegX[arg.Rs1] >> (p.RegX[arg.Rs2] & (XLen - 1))
 	case riscv.ASRA:
-		p.RegX[arg.Rd] = RVUInt(int64(p.RegX[arg.Rs1]) >> (p.RegX[arg.Rs2] & (XLen - 1)))
+		p.RegX[arg.Rd] = RVUInt(RVInt(p.RegX[arg.Rs1]) >> (p.RegX[arg.Rs2] & (XLen - 1)))
 	case riscv.AOR:
 		p.RegX[arg.Rd] = p.RegX[arg.Rs1] | p.RegX[arg.Rs2]
 	case riscv.AAND:
@@ -314,7 +314,7 @@ func (p *CPU) execInst(bus *device.Bus, as abi.As, arg *abi.AsRawArgument) error
 		return fmt.Errorf("%s: unsupport", riscv.AsString(as, ""))
 	case riscv.ADIV:
 		if p.RegX[arg.Rs2] != 0 {
-			p.RegX[arg.Rd] = RVUInt(int64(p.RegX[arg.Rs1]) / int64(p.RegX[arg.Rs2]))
+			p.RegX[arg.Rd] = RVUInt(RVInt(p.RegX[arg.Rs1]) / RVInt(p.RegX[arg.Rs2]))
 		} else {
 			v := int64(-1)
 			p.RegX[arg.Rd] = RVUInt(v)
